@@ -5,7 +5,11 @@ import json, subprocess, sys, tempfile, os, xml.etree.ElementTree as ET
 repo = sys.argv[1] if len(sys.argv) > 1 else "/repo"
 base = json.load(open("/root/.vp/BASELINE.json"))
 fd, junit = tempfile.mkstemp(suffix=".xml"); os.close(fd)
-cmd = ["/venv/bin/python", "-m", "pytest", "-q", "-p", "no:cacheprovider", "--timeout=900",
+# tests/test_setup.py binds fixed localhost ports: run the suite in a private network namespace so that
+# concurrent runs (several worktrees) cannot collide
+import shutil
+_ns = ["unshare", "-n", "sh", "-c", 'ip link set lo up 2>/dev/null; exec "$@"', "sh"] if shutil.which("unshare") and os.geteuid() == 0 else []
+cmd = _ns + ["/venv/bin/python", "-m", "pytest", "-q", "-p", "no:cacheprovider", "--timeout=900",
        "--continue-on-collection-errors", f"--junitxml={junit}", "-x" if False else "-q"]
 p = subprocess.run(cmd, cwd=repo, capture_output=True, text=True)
 tail = p.stdout.strip().splitlines()[-1:] 
